@@ -2,6 +2,7 @@ package main
 
 import (
 	"math"
+	"strings"
 
 	"github.com/EliCDavis/polyform/math/geometry"
 	"github.com/EliCDavis/polyform/math/mat"
@@ -193,6 +194,11 @@ func runC17(c *Ctx) {
 			t.TransformInPlace(inPlace)
 			c.Emit("c17.holds.pointwise", Fs(3)+" "+trsArgs+" "+nS+args+" "+outArr(inPlace), "true")
 			c.Emit("c17.trs.array", trsArgs+args, outArr(t.TransformArray(pts)))
+			fp := geometry.NewAABBFromPoints(pts...)
+			c.Emit("c17.aabb.frompoints", strings.TrimSpace(args), bbF(fp))
+			for _, q := range pts {
+				c.Emit("c17.holds.aabb_contains", bbF(fp)+" "+vF(q), "true")
+			}
 			c.Emit("c17.mesh.rotate", qF(u1)+args, out(m.Rotate(u1)))
 			c.Emit("c17.mesh.translate", vF(tp)+args, out(m.Translate(tp)))
 			c.Emit("c17.mesh.scale", vF(ts)+args, out(m.Scale(ts)))
